@@ -993,8 +993,10 @@ class Runner:
                             obs.append((c, o, cpu))
                             gc.collect()
                         (c1, o1, t1), (c4, o4, t4) = obs
-                        ctx.stat('scaling %s%s n=%d: steps x%.2f work x%.2f' % (
-                            shape, '+fault' if fault is True else '+allbad' if fault else '', n, o4['steps'] / max(o1['steps'], 1), o4['work'] / max(o1['work'], 1)))
+                        ctx.stat('scaling %s%s n=%d: steps x%.2f work x%.2f%s' % (
+                            shape, '+fault' if fault is True else '+allbad' if fault else '', n, o4['steps'] / max(o1['steps'], 1),
+                            o4['work'] / max(o1['work'], 1),
+                            ' cpu x%.1f' % (t4 / max(t1, 0.02)) if with_cpu and t1 is not None and t4 is not None else ''))
                         if any(o['status'] in ('ALARM', 'BUDGET', 'MEMORY') for o in (o1, o4)):
                             continue        # already reported by judge
                         inp = {'scaling': shape, 'fault': fault, 'n': n}
